@@ -24,8 +24,8 @@ CONSTANTS
   UnnamedPurge = FALSE
   ResumeRelooks = TRUE
   AgeAtDecision = TRUE
-  LoadAtomic = FALSE
-  PurgeFences = FALSE
+  LoadAtomic = TRUE
+  PurgeFences = TRUE
   Ghost = TRUE
 SYMMETRY Sym
 INVARIANTS
